@@ -82,6 +82,10 @@ def doc_names():
 
 
 def run_cfg(ctx, p, cfg, release):
+    from rules import c10
+    with ctx.rule("T9", "a width argument never drops text the destination has not taken", cfg) as r:
+        # the value's text passes through the width writers: what they charge to their budgets is what was consumed (C10.A7 re-evaluated)
+        c10.rule_counts_consumed(r, p)
     with ctx.rule("T1", "formatter name table", cfg) as r:
         f = p.fn(FROM_PIECE)
         tests = tables.string_key_tests(f)
